@@ -11,7 +11,10 @@ BOUNDS = {'quick': [(2, 1, 1), (3, 2, 0)], 'thorough': [(2, 1, 1), (3, 2, 0), (3
 
 
 def units(tier):
-    return [{'harness': 'stats', 'k': k, 'm': m, 'failed': f} for (k, m, f) in BOUNDS[tier]]
+    us = [{'harness': 'stats', 'k': k, 'm': m, 'failed': f} for (k, m, f) in BOUNDS[tier]]
+    # two iterations that drew the same (discrete) sample vector: their rows are textually identical, and both count
+    us += [{'harness': 'stats', 'k': k, 'm': m, 'failed': 0, 'dup': True} for (k, m) in ([(3, 1)] if tier == 'quick' else [(3, 1), (4, 2), (2, 1)])]
+    return us
 
 
 def _col(results, j):
@@ -100,7 +103,7 @@ def ref_stats(col):
             'average': mu, 'mean': mu, 'standard deviation': ('sqrt', var)}
 
 
-def run_main(k, m, failed):
+def run_main(k, m, failed, dup=False):
     outputs = [f'Out {chr(65 + j)}' for j in range(m)]
     inputs = [['In X', 'uniform', '1', '2']]
     w = mcworld.MCWorld(outputs, [True] * m, False)
@@ -108,6 +111,8 @@ def run_main(k, m, failed):
         f'ITERATIONS, {k + failed}\nMC_OUTPUT_FILE, /w/MC_Result.txt\n'
     vals = [[core.sym(f'y[{r}][{j}]', -1e9, 1e9) for j in range(m)] for r in range(k)]
     xin = [core.sym(f'x[{r}]', 1, 2) for r in range(k)]
+    if dup:
+        vals[1], xin[1] = vals[0], xin[0]
     captured = {}
 
     class Executor:
@@ -122,8 +127,12 @@ def run_main(k, m, failed):
 
         def map(self, fn, args, *a, **kw):
             # the K successful iterations have appended their rows (row building is the subject of the rows units)
+            first = None
             for r in range(k):
                 row = ', '.join(f'{vals[r][j]!s}' for j in range(m)) + f', (In X:{xin[r]!s};)\n'
+                if dup and r == 1:
+                    row = first        # the same figures print as the same text
+                first = first or row
                 w.fs['/w/MC_Result.txt'] += row
 
     class Futures:
@@ -222,24 +231,31 @@ def run_main(k, m, failed):
 
 def run_unit(unit):
     k, m, failed = unit['k'], unit['m'], unit['failed']
+    dup = bool(unit.get('dup'))
     cfg = {'harness': 'statistics', 'rows': k, 'outputs': m, 'failed_iterations': failed}
+    if dup:
+        cfg['rows 1 and 2'] = 'textually identical (two iterations drew the same discrete sample vector)'
     log = harness.UnitLog(cfg)
     zv = {f'y[{r}][{j}]': z3.Real(f'y[{r}][{j}]') for r in range(k) for j in range(m)}
 
     def concrete(inp):
         rows = [[float(inp.get(f'y[{r}][{j}]', 0.0)) for j in range(m)] for r in range(k)]
-        v, d = replay_stats(rows, failed)
+        if dup:
+            rows[1] = list(rows[0])
+        v, d = replay_stats(rows, failed, same_input=(0, 1) if dup else None)
         if v:
             return v, d
         # the same check on rows whose figures print short ('1.5') and on rows whose figures print long: how a row is read back must
         # not depend on how many characters its figures take
         for rows2 in ([[0.5 + r + 2 * j for j in range(m)] for r in range(k)], [[1234567.125 * (r + 1) + j for j in range(m)] for r in range(k)]):
-            v, d = replay_stats(rows2, failed)
+            if dup:
+                rows2[1] = list(rows2[0])
+            v, d = replay_stats(rows2, failed, same_input=(0, 1) if dup else None)
             if v:
                 return v, d
         return False, d
     n = 0
-    for pr in core.explore(lambda: run_main(k, m, failed), max_paths=2000):
+    for pr in core.explore(lambda: run_main(k, m, failed, dup), max_paths=2000):
         log.path(pr)
         n += 1
         if pr.error is not None:
@@ -255,6 +271,8 @@ def run_unit(unit):
         if failed_main:
             continue
         lines = text.splitlines()
+        nrows = sum(1 for ln in lines[1:] if ln.rstrip().endswith(';)'))
+        harness.discharge(log, c, 'after summarising, the results file still holds every row the iterations appended', nrows == k, zv, concrete)
         for j, o in enumerate(outputs):
             ref = ref_stats([vals[r][j] for r in range(k)])
             try:
@@ -283,7 +301,7 @@ def run_unit(unit):
     yield log.result()
 
 
-def replay_stats(rows, failed):
+def replay_stats(rows, failed, same_input=None):
     """the REAL main() with real numpy / pandas / matplotlib / json on real files in a temp dir; only the process pool is replaced
     by a stand-in that appends the given concrete rows (as the successful iterations would)."""
     import json
@@ -315,7 +333,8 @@ def replay_stats(rows, failed):
             def map(self, fn, args, *a, **kw):
                 with open(out, 'a') as f:
                     for r in range(k):
-                        f.write(', '.join(repr(float(x)) for x in rows[r]) + f', (In X:{1.0 + (r + 1) / (k + 2)!r};)\n')
+                        rx = same_input[0] if (same_input and r in same_input) else r      # iterations that drew the same sample vector
+                        f.write(', '.join(repr(float(x)) for x in rows[r]) + f', (In X:{1.0 + (rx + 1) / (k + 2)!r};)\n')
 
         class Futures:
             ProcessPoolExecutor = Executor
@@ -339,6 +358,9 @@ def replay_stats(rows, failed):
         want = {'minimum': arr.min(0), 'maximum': arr.max(0), 'median': np.median(arr, 0), 'average': arr.mean(0), 'mean': arr.mean(0),
                 'standard deviation': arr.std(0)}
         bad = []
+        kept = sum(1 for ln in open(out).read().splitlines()[1:] if ln.rstrip().endswith(';)')) if os.path.exists(out) else 0
+        if kept != k:
+            bad.append(('results file', 'rows kept after summarising', kept, k))
         for j, o in enumerate(outputs):
             for label, w in want.items():
                 got = js.get(o, {}).get(label)
